@@ -184,7 +184,116 @@ class WaitingSender(explore.Scenario):
         return (rt.verdict, tuple(sorted((i, r[0] if r else None) for i, r in rt.observations.get("results", {}).items())))
 
 
+GX = 16777238
+
+
+class TwoConnections(explore.Scenario):
+    """Two connections (two workers, one application each) in one orchestrator: one caller per connection, both
+    requests carrying the *same* Hop-by-Hop identifier (identifiers are per connection), answers in either
+    order. Optionally a connection ends right behind its answer (the answer has arrived: its caller wakes)."""
+    name = "two-connections"
+    horizon = 60.0
+    max_points = 20000
+    idle_window = 8.0
+    auto_shared = True
+    shared = WaitingSender.shared
+
+    def driver(self, rt):
+        import bromelia.bromelia as BB
+        from bromelia.base import DiameterRequest, DiameterAnswer
+        import bromelia.avps as A
+        order = self.params["order"]
+        nconn = self.params.get("connections", 2)
+        end_after = self.params.get("end_after_answer", False)
+        BB.BROMELIA_TICKER = 0.25
+        names = ["s6a", "gx"][:nconn]
+        appids = [S6A, GX][:nconn]
+        app, workers = inproc.make_bromelia(names, manager=VrtManager(), zero_timers=False)
+        BB.SEND_THRESHOLD_TICKER = 0.05
+        BB.PROCESS_TIMER = 0.001
+        outboxes = []
+        for nme in names:
+            ob = shims.Queue()
+            workers[nme].app = StubConnection(workers[nme].app.config, ob)
+            outboxes.append(ob)
+        results = {}
+        rt.observations["results"] = results
+        HBH = 0x0a000000
+
+        def caller(i):
+            r = DiameterRequest(command_code=316 if i == 0 else 272, application_id=appids[i],
+                                avps=[A.SessionIdAVP(f"c{i};1;{i}".encode()), A.OriginHostAVP(f"local-{names[i]}.example"),
+                                      A.OriginRealmAVP(f"realm-{names[i]}.local")])
+            r.header.hop_by_hop = HBH            # the same identifier on both connections
+            r.header.end_to_end = 0x0b000000 + i
+            ans = app.send_message(r)
+            results[i] = (ans.header.get_hop_by_hop(), ans.header.get_application_id(), id(ans)) if ans is not None else None
+
+        def peer():
+            for i in range(nconn):
+                outboxes[i].get()
+            for i in order:
+                a = DiameterAnswer(command_code=316 if i == 0 else 272, application_id=appids[i],
+                                   avps=[A.SessionIdAVP(f"ans;{i};0".encode()), A.ResultCodeAVP(2001)])
+                a.header.hop_by_hop = HBH
+                a.header.end_to_end = 0x0c000000 + i
+                workers[names[i]].notify_incoming_message(a)
+                if end_after:
+                    workers[names[i]].is_open.clear()     # the connection ends right behind its answer
+
+        T = shims.Thread
+        for nme in names:
+            T(target=workers[nme].send_handler, name=f"send_handler_{nme}").start()
+        T(target=app.main, name="bromelia_main").start()
+        T(target=peer, name="peer").start()
+        rt.begin_exploration()
+        callers = [T(target=caller, args=(i,), name=f"caller{i}") for i in range(nconn)]
+        for c in callers:
+            c.start()
+        for c in callers:
+            c.join()
+        rt.stop()
+
+    def oracle(self, rt):
+        errs = []
+        results = rt.observations.get("results", {})
+        nconn = self.params.get("connections", 2)
+        shape = f"conn{nconn}" + (":end-after-answer" if self.params.get("end_after_answer") else "")
+        if rt.verdict != "done":
+            waiting = [f"{n}@{w}" for n, st, w, _l in rt.final_states if n.startswith("caller") and st != "done"]
+            return [(f"C14:{rt.verdict}:{shape}:callers-never-woken",
+                     f"execution ended in {rt.verdict}; callers still waiting: {waiting}; returned so far: {sorted(results)}")]
+        objs = {}
+        for i in range(nconn):
+            r = results.get(i)
+            if r is None:
+                errs.append((f"C14:no-answer-returned:{shape}", f"caller {i} returned None although its answer arrived"))
+                continue
+            hbh, appid, oid = r
+            if appid != [S6A, GX][i]:
+                errs.append((f"C14:wrong-answer:{shape}", f"caller {i} on connection {i} was given the answer received on the "
+                                                          f"other connection (Application-ID {appid})"))
+            if oid in objs:
+                errs.append((f"C14:answer-delivered-twice:{shape}", f"callers {objs[oid]} and {i} got the same object"))
+            objs[oid] = i
+        for t in rt.crashed_threads():
+            if t.library and t.name not in ("peer",):
+                errs.append((f"C14:thread-crashed:{t.name.rstrip('0123456789')}:{type(t.exc).__name__}",
+                             f"thread {t.name} died with {type(t.exc).__name__}: {t.exc}"))
+        return errs
+
+    def outcome(self, rt):
+        return (rt.verdict, tuple(sorted((i, r[:2] if r else None) for i, r in rt.observations.get("results", {}).items())))
+
+
+SCENARIO_CLASSES = {"waiting-sender": WaitingSender, "two-connections": TwoConnections}
+
+
 def scenarios(tier):
+    yield TwoConnections(order=[0, 1])
+    yield TwoConnections(order=[1, 0])
+    yield TwoConnections(order=[0], connections=1, end_after_answer=True)
+    yield TwoConnections(order=[0, 1], end_after_answer=True)
     ks = (1, 2) if tier == "quick" else (1, 2, 3)
     for k in ks:
         for order in itertools.permutations(range(k)):
@@ -202,6 +311,8 @@ def scenarios(tier):
 
 
 def bound_for(scn, tier):
+    if scn.name == "two-connections":
+        return 1 if tier == "quick" else 2
     k = scn.params["k"]
     if tier == "quick":
         return 1
@@ -218,13 +329,13 @@ def bound_for(scn, tier):
 def _shard(rep, arg):
     """One worker: re-runs the default schedule of its scenario (cheap) and explores every k-th first-level
     deviation to the bound. The parent process never runs a controlled execution (no fork after threads)."""
-    params, bound, k, n = arg
-    scn = WaitingSender(**params)
+    cname, params, bound, k, n = arg
+    scn = SCENARIO_CLASSES[cname](**params)
     stats = {"executions": 0, "points": 0}
     base = explore.selfcheck_determinism(scn) if k == 0 else explore.execute(scn)
     if k == 0:
         rt = explore.run_one(scn, (), rep, stats)
-        rep.count(f"default_points_k{params['k']}", len(rt.points))
+        rep.count(f"default_points_{cname}_k{params.get('k', params.get('connections', 2))}", len(rt.points))
         rep.sample({"scenario": scn.name, "params": params, "deviation_bound": bound,
                     "default_schedule_points": len(rt.points),
                     "first_points": rt.trace_brief(rt.explore_from or 0)[:5]})
@@ -241,7 +352,7 @@ def run(report, tier, seed):
         nscn += 1
         bound = bound_for(scn, tier)
         n = 4 if bound <= 1 else 16
-        shards += [(scn.params, bound, k, n) for k in range(n)]
+        shards += [(scn.name, scn.params, bound, k, n) for k in range(n)]
     k = seed % max(1, len(shards))
     shards = shards[k:] + shards[:k]
     core.run_shards(report, _shard, shards, shard_timeout=3000)
@@ -252,7 +363,7 @@ def run(report, tier, seed):
 
 
 def replay(w):
-    scn = WaitingSender(**w["params"])
+    scn = SCENARIO_CLASSES.get(w.get("scenario"), WaitingSender)(**w["params"])
     rt = explore.execute(scn, {int(i): int(a) for i, a in w["choices"]})
     errs = scn.oracle(rt)
     start = rt.explore_from or 0
